@@ -20,18 +20,21 @@ for scn, cmd in _CMD.items():
                         functions=[("main", "main/naken_util.cpp", "harness, one concrete command line (T11 drops the unused #include <string>)"), ("String::*", "common/String.cpp", "real callee")],
                         defines=["VERIF_PURE_BODY=;", "SCN=%d" % scn], unwind=40, unwindset=["naken_util_main.1:2"], checks=CH, timeout=600,
                         bounded="the single command line `naken_util %s`, standard input at end of file; file_read, UtilContext and Simulate are contracts" % cmd))
-_g21 = Group(name="C19/naken_util.main.readline_eof[bounded]", unity="C19/u_utilmain.cpp", entry="h_utilmain",
-             functions=[("main", "main/naken_util.cpp", "harness, the shipped -DREADLINE configuration; readline/history replaced by a contract header (contracts/C19/shadow)"), ("String::*", "common/String.cpp", "real callee")],
-             defines=["VERIF_PURE_BODY=;", "SCN=21", "READLINE"], includes=["C19/shadow"], unwind=40, unwindset=["naken_util_main.1:4"], checks=CH, timeout=900,
-             bounded="the session `naken_util a.hex` with one command line (`registers`) followed by end of input; the unwinding bound of the command loop (3 iterations) is the termination obligation")
-_g21.unwind_is_spec = True
-GROUPS.append(_g21)
+_SESS = {21: ("readline_eof", "`registers`, end of input"), 22: ("session_print", "`print 0x10`, `quit`"), 23: ("session_unknown_command", "`bogus 1 2`, `exit`"),
+         24: ("session_write16", "`write16 0x20 1 2`, `quit`"), 25: ("session_missing_argument", "`print`, `quit`")}
+for _scn, (_nm, _what) in _SESS.items():
+    _g = Group(name="C19/naken_util.main.%s[bounded]" % _nm, unity="C19/u_utilmain.cpp", entry="h_utilmain",
+               functions=[("main", "main/naken_util.cpp", "harness, the shipped -DREADLINE configuration; readline/history replaced by a contract header (contracts/C19/shadow)"), ("String::*", "common/String.cpp", "real callee")],
+               defines=["VERIF_PURE_BODY=;", "SCN=%d" % _scn, "READLINE"], includes=["C19/shadow"], unwind=40, unwindset=["naken_util_main.1:4"], checks=CH, timeout=900,
+               bounded="the session `naken_util a.hex` with the input lines %s (then end of input); the unwinding bound of the command loop (3 iterations) is the termination obligation" % _what)
+    _g.unwind_is_spec = True
+    GROUPS.append(_g)
 LEVEL = "other"
 EXPLANATION = ("Bounded model checking (CBMC, complete unwinding for the stated string lengths) of the real command parsers and write commands, plus the bounded Memory "
                "byte-map/16-bit round-trip checks shared with C05; strings are unbounded in the tool, so no unbounded proof is claimed.")
 TRUSTED = ["Memory replaced by a write log in the command harnesses; its byte-map behaviour is the separate bounded Memory obligation"]
 MANIFEST = {
-    "text": "Bounded stand-in: number parsing (decimal, 0x, h) for every string of <= 8 characters never reads past the terminator and yields the positional value; write/write16 place the k-th value at address*bytes_per_address + k*width in the CPU's byte order; Memory 16-bit round trip on the real page list; main()'s command-line handling up to the first prompt (-set_pc survives the reset, no argv entry past argc is used) for command lines of up to 3 words (thorough tier).",
+    "text": "Bounded stand-in: number parsing (decimal, 0x, h) for every string of <= 8 characters never reads past the terminator and yields the positional value; write/write16 place the k-th value at address*bytes_per_address + k*width in the CPU's byte order; Memory 16-bit round trip on the real page list; main()'s command-line handling up to the first prompt (-set_pc survives the reset, no argv entry past argc is used) for 12 concrete command lines, and five interactive sessions of the shipped readline configuration (a command is dispatched once with its arguments, unknown or incomplete commands are rejected, `quit`/`exit` or end of input ends the session).",
     "note": "disasm ranges, set/run and the interactive command interpreter of main/naken_util.cpp are not covered; print8/16/32 termination and buffer safety are under C17.",
     "technique": "bounded model checking (CBMC, complete unwinding) of core/UtilContext.cpp parsers and write commands - labelled bounded, not proved",
 }
